@@ -267,9 +267,22 @@ def handleCore : List String → List String → String
     | none => "BAD hex"
   | _, _ => "BAD c17 line"
 
-def handle : Handler
-  | "http" :: _ :: script :: _, out => handleHttp script out
-  | "ws" :: _ :: script :: _, out => handleWs script out
-  | i, o => handleCore i o
+/-- PANIC (recovered in the handler, or the whole worker process died) and HANG are violations whatever
+    else is known about the case — also for the differential ops, whose models never fault. -/
+def crashVerdict (out : List String) : Option String :=
+  match kvGet out "res" with
+  | some "panic" => some s!"VIOL panic {(kvGet out "msg").getD ""}"
+  | some "crash" => some s!"VIOL panic process-died {(kvGet out "msg").getD ""}"
+  | some "hang" => some s!"VIOL hang {(kvGet out "where").getD ""}"
+  | _ => none
+
+def handle : Handler := fun i o =>
+  match crashVerdict o with
+  | some v => v
+  | none =>
+    match i with
+    | "http" :: _ :: script :: _ => handleHttp script o
+    | "ws" :: _ :: script :: _ => handleWs script o
+    | _ => handleCore i o
 
 end GB.C17
